@@ -1,7 +1,7 @@
 (* C15 — announce tokens and the peer store: token_window, announce_then_get (refuted as stated,
    proved for the byte order the code really stores). *)
 From Coq Require Import List NArith Bool Lia.
-From LTV Require Import Params_gen.
+From LTV.C15 Require Import ParamsGen.
 From LTV.C15 Require Import Model.
 Import ListNotations.
 Local Open Scope N_scope.
